@@ -106,15 +106,21 @@ def translate():
     need(params[:3] == ["obj", "lookup_list", "e"], "allowed() parameters changed: %r" % params)
     src = Flat(ast.unparse(al))
     keys = [n for n in ast.walk(al) if isinstance(n, ast.Assign) and ast.unparse(n.targets[0]) == "key"]
-    need(len(keys) == 1 and isinstance(keys[0].value, ast.Tuple), "visited key is not a single tuple assignment")
-    elts = [ast.unparse(e) for e in keys[0].value.elts]
-    need(elts[:2] == ["id(obj)", "id(e)"], "visited key does not start with (id(obj), id(e)): %r" % elts)
-    need(elts[2:] in ([], ["bool(first_element)"], ["first_element"]), "unrecognised visited key: %r" % elts)
-    key_first = len(elts) == 3
-    need("if key in visited[len(lookup_list)]:" in src and "visited[len(lookup_list)].add(key)" in src,
-         "visited set is no longer indexed by len(lookup_list)")
-    if key_first:
-        need(params == ["obj", "lookup_list", "e", "first_element"], "allowed() does not take first_element")
+    if not keys:
+        # the shape before the repair: the pair is written out twice
+        need("if (id(obj), id(e)) in visited[len(lookup_list)]:" in src and "visited[len(lookup_list)].add((id(obj), id(e)))" in src
+             and params == ["obj", "lookup_list", "e"], "visited key not recognised")
+        key_first = False
+    else:
+        need(len(keys) == 1 and isinstance(keys[0].value, ast.Tuple), "visited key is not a single tuple assignment")
+        elts = [ast.unparse(e) for e in keys[0].value.elts]
+        need(elts[:2] == ["id(obj)", "id(e)"], "visited key does not start with (id(obj), id(e)): %r" % elts)
+        need(elts[2:] in ([], ["bool(first_element)"], ["first_element"]), "unrecognised visited key: %r" % elts)
+        key_first = len(elts) == 3
+        need("if key in visited[len(lookup_list)]:" in src and "visited[len(lookup_list)].add(key)" in src,
+             "visited set is no longer indexed by len(lookup_list)")
+        if key_first:
+            need(params == ["obj", "lookup_list", "e", "first_element"], "allowed() does not take first_element")
     # every guard passes (obj, lookup_list, self[, first_element])
     calls = [ast.unparse(n) for n in ast.walk(tree) if isinstance(n, ast.Call) and ast.unparse(n.func) == "allowed"]
     want_call = "allowed(obj, lookup_list, self, first_element)" if key_first else "allowed(obj, lookup_list, self)"
